@@ -188,6 +188,44 @@ def run(ctx, rep):
     rd = list(pr.calls('pread'))
     rep.rule('R-C05-7r', 'parity_read refuses positions beyond valid_size before reading', 1)
     rep.check(bool(chk) and bool(rd) and all(pr.bdominates(chk[0], r_.block) for r_ in rd), 'R-C05-7r', 'parity_read: valid_size test dominates pread', pr.file, '', function='parity_read', construct='valid_size gate')
+    # ---- R-C05-8 a per-file flag that steers a write decision is read only after the site that computes it
+    rep.rule('R-C05-8', 'state_check_process: every test of a file flag computed by the first-open detection (FILE_IS_UNSYNCED) is reached only after that detection in the same disk iteration (a --filter-error/-e fix never acts on a stale flag)', 1)
+    cp = P.fn('state_check_process')
+    def _fed_by_stat_compare(c):
+        for pb in cp.pred[c.block]:
+            t = cp.term(pb)
+            if t.op == 'br' and len(t.ops) == 3 and any(w in cp.expr(t.ops[0]) for w in ('st_size', 'st_mtim')):
+                # control dependent on the comparison: the other outcome can finish the iteration without the setter
+                others = [o[1] for o in t.ops[1:] if o[1] != c.block]
+                hd_ = cp.loop_of(c.block)
+                if hd_ is None:
+                    continue
+                for ob in others:
+                    r_ = cp.reach([cp.blocks[ob][0]], stop={cp.blocks[hd_][0].id}, include_start=True)
+                    if c.id not in r_:
+                        return True
+        return False
+    sets = [c for c in cp.calls('file_flag_set') if cp.const_of(c.ops[1]) is not None and _fed_by_stat_compare(c)]
+    if not sets:
+        raise AnalysisBroken('state_check_process: first-open change detection (file_flag_set under a size/time comparison) not found')
+    for sc in sets:
+        k = cp.const_of(sc.ops[1])
+        obj = cp.expr(sc.ops[0])
+        hd = cp.loop_of(sc.block)
+        if hd is None:
+            raise AnalysisBroken('state_check_process: change detection is not inside the disk loop')
+        stop = {cp.blocks[hd][0].id}
+        early = []
+        nread = 0
+        for rd_ in cp.calls('file_flag_has'):
+            if cp.const_of(rd_.ops[1]) != k or rd_.block not in cp.loops[hd]:
+                continue
+            nread += 1
+            if sc.id in cp.reach([rd_], stop=stop):
+                early.append(rd_)
+        rep.check(nread >= 1 and not early, 'R-C05-8', 'file flag 0x%x set at line %s is tested only after it is computed' % (k, sc.line), (early[0] if early else sc).loc(),
+                  '%d tests in the disk loop; tests that can run before the detection: %s' % (nread, ['line %s' % e_.line for e_ in early]), function='state_check_process', construct='flag 0x%x read before set' % k)
+
     # ---- R-C05-6 hash-length agreement: a past hash (CHG/DELETED block) was computed under the block length of ANOTHER file;
     # a comparison that uses the current file's block size can fail for equal data, so a mismatch must be treated conservatively
     rep.rule('R-C05-6', 'comparisons of recovered/read data with a possibly inherited past hash treat a mismatch conservatively', 2)
